@@ -18,11 +18,15 @@ namespace
     {
       const double omega = gen_omega(c.rng, s);
       omega_tag(c, omega);
+      // (seed C08f) half of the objects are constructed with another relaxation parameter and get theirs through set_omega()
+      const bool via_set = c.rng.coin(0.5);
+      const double omega0 = omega == 1.0 ? 0.5 : 1.0;
+      if(via_set) c.tag("omega:via_set_omega");
       c.set_op("sor.apply");
       c.desc = vh::J().kv("precond", "sor").kv("omega", omega).raw("system", s.describe()).str();
       typedef typename MT_::DataType DT;
       history(c, s, m, f, "sor.apply", vh::J().kv("omega", omega).str(),
-        [&](const MT_& mm, const auto& ff) { return Solver::new_sor_precond(PreferredBackend::generic, mm, ff, DT(omega)); },
+        [&](const MT_& mm, const auto& ff) { auto pp = Solver::new_sor_precond(PreferredBackend::generic, mm, ff, DT(via_set ? omega0 : omega)); if(via_set) pp->set_omega(DT(omega)); return pp; },
         [omega](const Sys& t)
         {
           auto T = std::make_shared<std::vector<LD>>(part(t, 0, 1.0L / (LD)omega));
@@ -40,6 +44,10 @@ namespace
     {
       const double omega = gen_omega(c.rng, s);
       omega_tag(c, omega);
+      // (seed C08f) half of the objects are constructed with another relaxation parameter and get theirs through set_omega()
+      const bool via_set = c.rng.coin(0.5);
+      const double omega0 = omega == 1.0 ? 0.5 : 1.0;
+      if(via_set) c.tag("omega:via_set_omega");
       c.set_op("ssor.apply");
       c.desc = vh::J().kv("precond", "ssor").kv("omega", omega).raw("system", s.describe()).str();
       typedef typename MT_::DataType DT;
@@ -63,7 +71,7 @@ namespace
         };
       }
       history(c, s, m, f, "ssor.apply", vh::J().kv("omega", omega).str(),
-        [&](const MT_& mm, const auto& ff) { return Solver::new_ssor_precond(PreferredBackend::generic, mm, ff, DT(omega)); },
+        [&](const MT_& mm, const auto& ff) { auto pp = Solver::new_ssor_precond(PreferredBackend::generic, mm, ff, DT(via_set ? omega0 : omega)); if(via_set) pp->set_omega(DT(omega)); return pp; },
         [omega](const Sys& t)
         {
           auto D = std::make_shared<std::vector<LD>>(part(t, 0));
